@@ -23,8 +23,6 @@ IMPORTS = "From PV Require Import C12.Model C12.Spec.\n"
 FINDINGS = {
     "F9": dict(in_q=True, what="validate_spect_data_set(ds, fix) with sos/eos configured on ds writes the "
                "repaired reference back WITH the symbols (they land on disk and are doubled on the next load)"),
-    "F12": dict(in_q=True, what="get-torch-spect-data-dir-info --fix 0 does not validate at all "
-                "('options.strict or options.fix' is falsy for 0): defects are neither repaired nor raised"),
     "F13": dict(in_q=True, what="get-torch-spect-data-dir-info reports total_tokens -1 (not 0) when ref/ exists "
                 "and every transcript is empty"),
     "F14": dict(in_q=True, what="get-torch-spect-data-dir-info reports rcount_<i> -1 as soon as one segment of "
@@ -661,7 +659,7 @@ INT_DTYPES = ("int64", "int32", "int16", "int8", "uint8")
 def _sane_op(utts, op):
     """Statistics WITHOUT validation are modelled (and documented) only for integer-typed alignments/references:
     on other dtypes the report code fails with TypeError or prints non-integers.  Such a step is validated."""
-    if op["api"] == "cli" and not op["strict"] and op["fix"] in (None, 0):
+    if op["api"] == "cli" and not op["strict"] and op["fix"] is None:
         for u in utts:
             for s in ("ali", "ref"):
                 if u.get(s) is not None and u[s]["dtype"] not in INT_DTYPES:
@@ -838,7 +836,7 @@ def classify(case, op, comp):
         return "F14"
     if comp == 0:
         if op["api"] == "cli":
-            return "F12" if (op["fix"] == 0 and not op["strict"]) else None
+            return None  # F12 (--fix 0 skipped validation) is repaired in /repo (0bbdd7f); the model validates
         if cfg.get("suppress_alis"):
             return "F10"
         if cfg.get("tokens_only"):
@@ -876,6 +874,7 @@ class Judge:
         self.examples = {}
         self.concrete = []   # (case index, step index, record)
         self.nfi = []
+        self.outside = []  # model mismatches outside the quantifier: recorded only
 
     def step(self, ci, si, case, st, bits):
         m, simp, smod, inq = bits[0], bits[1:5], bits[5:9], bits[9]
@@ -885,9 +884,12 @@ class Judge:
                                                  else "get-torch-spect-data-dir-info"),
                 "theorems_at_stake": THEOREMS}
         if not inq:
+            # negative token ids / alignment classes / symbols: the property says nothing here and the spec judge does
+            # not apply, so a difference from the model is recorded in the evidence but is never a verdict by itself
+            # (a real drift of the model shows up on the in-quantifier cases, which are the large majority)
             if not m:
-                self.nfi.append((ci, si, dict(rec0, what="outside the quantifier (negative ids): implementation differs "
-                                                        "from the model")))
+                self.outside.append((ci, si, dict(rec0, what="outside the quantifier (negative ids): implementation "
+                                                            "differs from the model (recorded, not a violation)")))
             return
         for comp in range(4):
             if not smod[comp]:
@@ -1083,6 +1085,9 @@ def run(chk, cases=None):
         chk.report(j.nfi[0][2], no_failing_input=True)
     chk.extra["concrete_violations"] = len(j.concrete)
     chk.extra["model_only_disagreements"] = len(j.nfi)
+    chk.extra["outside_quantifier_model_mismatches"] = len(j.outside)
+    if j.outside:
+        chk.extra["outside_quantifier_example"] = {k: j.outside[0][2][k] for k in ("case", "step", "op", "impl")}
 
 
 def digest_of(obj):
